@@ -764,4 +764,16 @@ class PathRunner:
             self.solver_seconds += time.time() - t0
 
     def check_sat(self):
-        return self._check(timeout=self.budget.obl_ms)
+        """satisfiability of the current path condition (vacuity guard); z3's unknown on quantified assumptions is
+        settled by exhibiting a finite model"""
+        r = self._check(timeout=min(3000, self.budget.obl_ms))
+        if r == z3.unknown:
+            try:
+                from . import finite
+                for es, er in ((1, 4), (2, 7), (4, 10)):
+                    r2, m, _ = finite.refute(self.pc, z3.BoolVal(True), es, er, 4000, self.str_consts)
+                    if r2 == z3.sat:
+                        return z3.sat
+            except Exception:
+                pass
+        return r
